@@ -455,26 +455,35 @@ mod v_iface_neighbor {
     }
 
     // ------------------------------------------------------------------ 3. next hop -> hardware address, one step
-    // @harness props=C16 cfg=KI4,KI6 tier=q to=900 mem=8 unwind=KI4:8,KI6:18 opts=nomem covers=7 funcs=InterfaceInner::lookup_hardware_addr;InterfaceInner::dispatch_ip;InterfaceInner::route;InterfaceInner::in_same_network;InterfaceInner::dispatch_ethernet;route::Routes::lookup;neighbor::Cache::lookup;neighbor::Cache::limit_rate bounds=Ethernet_interface_192.168.1.1/24_(IPv6:_fe80::1/64_+_2001:db8::1/64);_neighbor_cache_3_slots_holding_0..=3_entries_(any_unicast_keys,_addresses,_expiries),_any_silent_until;_0..=2_routes_(any_prefix,_gateway,_expiry);_any_unicast_destination_(all_address_bits_symbolic);_any_instant;_UDP_datagram_with_4_payload_bytes;_optional_lookup_hardware_addr_call_followed_by_dispatch_ip_at_the_same_instant
-    #[kani::proof]
-    pub(crate) fn lookup_hw_addr_step() {
+    struct Out {
+        hit: bool,
+        a_sent: bool,
+        b_sent: bool,
+        b_pending: bool,
+        no_route: bool,
+        on_link: bool,
+        two_live: bool,
+        stale_key: bool,
+        rate_limited: bool,
+        others_expired: bool,
+    }
+
+    /// One step from an arbitrary state: `lookup_hardware_addr(dst)` (do_a) and / or `dispatch_ip(UDP datagram to dst)`
+    /// (do_b, after A at the same instant when both).  do_a / do_b are constants at every call site.
+    fn hw_step(do_a: bool, do_b: bool) -> Out {
         eth_env!(dev, iface, now, false);
-        let (c, mut m) = any_cache(now);
+        // A full cache and a full route table: for lookups an entry / route that is expired is indistinguishable from
+        // one that is absent (expiries are symbolic, 0 included), so these subsume the smaller ones - and all container
+        // lengths stay concrete (file header).
+        let (c, mut m) = cache_with(3, now);
         iface.inner.neighbor_cache = c;
-        let n = any_le(2);
+        let n = 2;
         let r0 = any_route();
         let r1 = any_route();
-        // (each case pushes at a concrete length)
-        match n {
-            0 => {}
-            1 => iface.routes_mut().update(|v| {
-                v.push(r0).unwrap();
-            }),
-            _ => iface.routes_mut().update(|v| {
-                v.push(r0).unwrap();
-                v.push(r1).unwrap();
-            }),
-        }
+        iface.routes_mut().update(|v| {
+            v.push(r0).unwrap();
+            v.push(r1).unwrap();
+        });
         // the code under test gets a small `self`: InterfaceInner and Fragmenter moved out of the Interface
         let mut inner = iface.inner;
         let mut fragmenter = iface.fragmenter;
@@ -483,15 +492,18 @@ mod v_iface_neighbor {
         let has_last: bool = kani::any();
         let last = any_instant(0, now.total_micros());
         kani::assume(!has_last || m.silent >= plus(last, SEC));
+        let m_pre = m;
 
         // the code's next hop is one the reference admits
         let nh = inner.route(&dst, now);
         assert!(ref_next_hop_ok(nh, &dst, n, &r0, &r1, now), "prop:c16_next_hop_is_destination_if_on_link_else_longest_prefix_live_gateway");
         assert!(inner.has_neighbor(&dst) == (nh.is_some() && m_lookup(&m, &nh.unwrap_or(dst), now).found()), "prop:c16_has_neighbor_iff_next_hop_resolved");
 
-        // ---- step A (optional): lookup_hardware_addr
-        let do_a: bool = kani::any();
         let mut a_sent = false;
+        let mut b_sent = false;
+        let mut b_pending = false;
+        let mut hit = false;
+        // ---- step A: lookup_hardware_addr
         if do_a {
             let mut st = TxState::<CAP>::new();
             let res = inner.lookup_hardware_addr(CapTx { st: &mut st }, &dst, &mut fragmenter);
@@ -506,6 +518,7 @@ mod v_iface_neighbor {
                 }
                 Some(nh) => match m_lookup(&m, &nh, now) {
                     NeighborAnswer::Found(h) => {
+                        hit = true;
                         assert!(res == Ok(h), "prop:c16_hardware_address_is_cache_entry_of_next_hop");
                         assert!(st.frames == 0, "prop:c16_lookup_hit_sends_nothing");
                     }
@@ -529,62 +542,102 @@ mod v_iface_neighbor {
                 assert!(nh.is_some() && m_lookup(&m, &nh.unwrap(), now) == NeighborAnswer::Found(h), "prop:c16_never_a_guessed_hardware_address");
             }
             // cache entries untouched; silent_until = now + 1 s exactly when a request went out
+            // (= prop:c16_silent_until_set_after_request)
             assert_cache_is(&inner.neighbor_cache, &m, now);
         }
 
-        // ---- step B: dispatch_ip of a UDP datagram to dst at the same instant
-        let data: [u8; 4] = kani::any();
-        let sport: u16 = kani::any();
-        let dport: u16 = kani::any();
-        let src = inner.get_source_address(&dst).unwrap();
-        let ip = IpRepr::new(src, dst, IpProtocol::Udp, 8 + 4, 64);
-        let packet = Packet::new(ip, IpPayload::Udp(UdpRepr { src_port: sport, dst_port: dport }, &data[..]));
-        let mut st = TxState::<CAP>::new();
-        let res = inner.dispatch_ip(CapTx { st: &mut st }, PacketMeta::default(), packet, &mut fragmenter);
-        let mut b_sent = false;
-        let mut hit = false;
-        match nh {
-            None => {
-                assert!(res == Err(DispatchError::NoRoute), "prop:c16_no_route_reported");
-                assert!(st.frames == 0, "prop:c16_nothing_sent_without_route");
+        // ---- step B: dispatch_ip of a UDP datagram to dst (at the same instant as A when both run)
+        if do_b {
+            let data: [u8; 4] = kani::any();
+            let sport: u16 = kani::any();
+            let dport: u16 = kani::any();
+            let src = inner.get_source_address(&dst).unwrap();
+            let ip = IpRepr::new(src, dst, IpProtocol::Udp, 8 + 4, 64);
+            let packet = Packet::new(ip, IpPayload::Udp(UdpRepr { src_port: sport, dst_port: dport }, &data[..]));
+            let mut st = TxState::<CAP>::new();
+            let res = inner.dispatch_ip(CapTx { st: &mut st }, PacketMeta::default(), packet, &mut fragmenter);
+            match nh {
+                None => {
+                    assert!(res == Err(DispatchError::NoRoute), "prop:c16_no_route_reported");
+                    assert!(st.frames == 0, "prop:c16_nothing_sent_without_route");
+                }
+                Some(nh) => match m_lookup(&m, &nh, now) {
+                    NeighborAnswer::Found(h) => {
+                        hit = true;
+                        assert!(res == Ok(()), "prop:c16_hit_emits_the_datagram");
+                        assert!(st.frames == 1, "prop:c16_hit_emits_the_datagram");
+                        check_ip_frame(&st.buf0, st.len0, &h, &src, &dst, sport, dport, &data);
+                    }
+                    NeighborAnswer::RateLimited => {
+                        b_pending = true;
+                        assert!(res == Err(DispatchError::NeighborPending), "prop:c16_miss_reports_neighbor_pending");
+                        assert!(st.frames == 0, "prop:c16_no_ip_frame_while_next_hop_unresolved");
+                    }
+                    NeighborAnswer::NotFound => {
+                        b_pending = true;
+                        assert!(res == Err(DispatchError::NeighborPending), "prop:c16_miss_reports_neighbor_pending");
+                        assert!(st.frames == 1, "prop:c16_no_ip_frame_while_next_hop_unresolved");
+                        check_request_frame(&st.buf0, st.len0, &nh);
+                        b_sent = true;
+                        assert!(now >= m.silent && !a_sent, "prop:c16_request_only_when_not_silent");
+                        assert!(!has_last || now.total_micros() - last.total_micros() >= SEC, "prop:c16_requests_at_least_1s_apart");
+                        m.silent = plus(now, SEC);
+                    }
+                },
             }
-            Some(nh) => match m_lookup(&m, &nh, now) {
-                NeighborAnswer::Found(h) => {
-                    hit = true;
-                    assert!(res == Ok(()), "prop:c16_hit_emits_the_datagram");
-                    assert!(st.frames == 1, "prop:c16_hit_emits_the_datagram");
-                    check_ip_frame(&st.buf0, st.len0, &h, &src, &dst, sport, dport, &data);
-                }
-                NeighborAnswer::RateLimited => {
-                    assert!(res == Err(DispatchError::NeighborPending), "prop:c16_miss_reports_neighbor_pending");
-                    assert!(st.frames == 0, "prop:c16_no_ip_frame_while_next_hop_unresolved");
-                }
-                NeighborAnswer::NotFound => {
-                    assert!(res == Err(DispatchError::NeighborPending), "prop:c16_miss_reports_neighbor_pending");
-                    assert!(st.frames == 1, "prop:c16_no_ip_frame_while_next_hop_unresolved");
-                    check_request_frame(&st.buf0, st.len0, &nh);
-                    b_sent = true;
-                    assert!(now >= m.silent && !a_sent, "prop:c16_request_only_when_not_silent");
-                    assert!(!has_last || now.total_micros() - last.total_micros() >= SEC, "prop:c16_requests_at_least_1s_apart");
-                    m.silent = plus(now, SEC);
-                }
-            },
+            assert_cache_is(&inner.neighbor_cache, &m, now);
+            // the fragmenter holds nothing (no datagram parked for a guessed address)
+            assert!(fragmenter.is_empty(), "prop:c16_nothing_parked_in_fragmenter");
         }
-        if b_sent {
-            // prop:c16_silent_until_set_after_request is the silent part of the next assertion
+        if a_sent || b_sent {
             assert!(m.silent == plus(now, SEC), "prop:c16_silent_until_set_after_request");
         }
-        assert_cache_is(&inner.neighbor_cache, &m, now);
-        // the fragmenter holds nothing (no datagram parked for a guessed address)
-        assert!(fragmenter.is_empty(), "prop:c16_nothing_parked_in_fragmenter");
+        Out {
+            hit,
+            a_sent,
+            b_sent,
+            b_pending,
+            no_route: nh.is_none(),
+            on_link: on_link(&dst),
+            two_live: usable(&r0, &dst, now) && usable(&r1, &dst, now),
+            stale_key: nh.is_some() && m_key_index(&m, &nh.unwrap_or(dst)).is_some(),
+            rate_limited: nh.is_some() && m_lookup(&m_pre, &nh.unwrap_or(dst), now) == NeighborAnswer::RateLimited,
+            others_expired: m.e[0].exp <= now && m.e[2].exp <= now,
+        }
+    }
 
-        kani::cover!(hit && !on_link(&dst) && n == 2 && usable(&r0, &dst, now) && usable(&r1, &dst, now), "hit through a gateway chosen among two live routes");
-        kani::cover!(hit && on_link(&dst) && m.n == 3, "on-link hit in a full cache");
-        kani::cover!(a_sent, "request sent by lookup_hardware_addr");
-        kani::cover!(b_sent && !on_link(&dst), "request for a gateway sent by dispatch_ip");
-        kani::cover!(do_a && a_sent && !b_sent && res == Err(DispatchError::NeighborPending), "second attempt in the same instant is silent");
-        kani::cover!(!hit && nh.is_some() && m_key_index(&m, &nh.unwrap()).is_some() && st.frames == 1, "expired entry: not used, rediscovered");
-        kani::cover!(nh.is_none(), "no route");
+    // @harness props=C16 cfg=KI4,KI6 tier=q to=900 mem=8 unwind=KI4:8,KI6:18 opts=nomem covers=6 funcs=InterfaceInner::lookup_hardware_addr;InterfaceInner::route;InterfaceInner::has_neighbor;InterfaceInner::in_same_network;InterfaceInner::dispatch_ethernet;route::Routes::lookup;neighbor::Cache::lookup;neighbor::Cache::limit_rate bounds=Ethernet_interface_192.168.1.1/24_(IPv6:_fe80::1/64_+_2001:db8::1/64);_neighbor_cache_full:_3_entries_with_fixed_keys_(2_on-link_hosts,_1_off-link),_any_hardware_addresses,_any_expiries_(expired_=_absent_for_lookups),_any_silent_until;_2_routes_(any_network,_prefix_length,_unicast_gateway,_expiry;_expired_=_absent);_any_unicast_destination_(all_address_bits_symbolic);_any_instant
+    #[kani::proof]
+    pub(crate) fn lookup_hw_addr_step() {
+        let o = hw_step(true, false);
+        kani::cover!(o.hit && !o.on_link && o.two_live, "hit through a gateway chosen among two live routes");
+        kani::cover!(o.hit && o.on_link && o.others_expired, "on-link hit while the other entries are expired");
+        kani::cover!(o.a_sent && !o.on_link, "request for a gateway sent");
+        kani::cover!(o.a_sent && o.stale_key, "expired entry: not used, rediscovered");
+        kani::cover!(o.rate_limited && !o.a_sent, "miss inside the silent second: nothing sent");
+        kani::cover!(o.no_route, "no route");
+    }
+
+    // @harness props=C16 cfg=KI4,KI6 tier=q to=900 mem=8 unwind=KI4:8,KI6:18 opts=nomem covers=6 funcs=InterfaceInner::dispatch_ip;InterfaceInner::lookup_hardware_addr;InterfaceInner::route;InterfaceInner::dispatch_ethernet;Packet::emit_payload;route::Routes::lookup;neighbor::Cache::lookup;neighbor::Cache::limit_rate bounds=as_lookup_hw_addr_step;_UDP_datagram_with_any_ports_and_4_payload_bytes,_source_chosen_by_get_source_address,_checksums_off,_MTU_1500
+    #[kani::proof]
+    pub(crate) fn dispatch_ip_neighbor_step() {
+        let o = hw_step(false, true);
+        kani::cover!(o.hit && !o.on_link && o.two_live, "datagram sent through a gateway chosen among two live routes");
+        kani::cover!(o.hit && o.on_link && o.others_expired, "datagram sent on-link while the other entries are expired");
+        kani::cover!(o.b_sent && !o.on_link, "request for a gateway sent instead of the datagram");
+        kani::cover!(o.b_sent && o.stale_key, "expired entry: not used, rediscovered");
+        kani::cover!(o.b_pending && !o.b_sent, "miss inside the silent second: nothing sent at all");
+        kani::cover!(o.no_route, "no route");
+    }
+
+    // both calls at the same instant: the second one never sends a second request
+    // @harness props=C16 cfg=KI4 tier=t to=1500 mem=8 unwind=8 opts=nomem covers=2 funcs=InterfaceInner::lookup_hardware_addr;InterfaceInner::dispatch_ip;neighbor::Cache::limit_rate bounds=as_lookup_hw_addr_step;_lookup_hardware_addr_then_dispatch_ip_of_a_UDP_datagram_to_the_same_destination_at_the_same_instant
+    #[kani::proof]
+    pub(crate) fn lookup_then_dispatch_same_instant() {
+        let o = hw_step(true, true);
+        assert!(!(o.a_sent && o.b_sent), "prop:c16_requests_at_least_1s_apart");
+        kani::cover!(o.a_sent && o.b_pending && !o.b_sent, "second attempt in the same instant is silent");
+        kani::cover!(o.hit, "both calls hit");
     }
 
     // ------------------------------------------------------------------ 4a. ARP fills the cache only when validated
@@ -877,7 +930,7 @@ mod v_iface_neighbor {
     }
 
     // ------------------------------------------------------------------ 5. socket data survives an unresolved neighbor
-    // @harness props=C16 cfg=KI4 tier=q to=900 mem=8 unwind=8 opts=nomem covers=4 funcs=Interface::socket_egress;udp::Socket::dispatch;InterfaceInner::dispatch_ip;InterfaceInner::lookup_hardware_addr;InterfaceInner::has_neighbor;socket_meta::Meta::egress_permitted;socket_meta::Meta::neighbor_missing;socket_meta::Meta::poll_at bounds=one_UDP_socket_with_one_queued_4-byte_datagram_to_any_on-link_host_192.168.1.x;_neighbor_cache_holding_2_entries_(fixed_keys_192.168.1.2,_.77;_any_addresses,_expiries)_without_a_live_entry_for_it;_any_silent_until;_device_with_or_without_a_free_transmit_buffer;_second_egress_after_the_address_was_learned
+    // @harness props=C16 cfg=KI4 tier=q to=900 mem=8 unwind=8 opts=nomem,fs300 covers=4 funcs=Interface::socket_egress;udp::Socket::dispatch;udp::Socket::send_queue;InterfaceInner::dispatch_ip;InterfaceInner::lookup_hardware_addr;InterfaceInner::has_neighbor;socket_meta::Meta::egress_permitted;socket_meta::Meta::neighbor_missing;socket_meta::Meta::poll_at bounds=one_UDP_socket_with_one_queued_4-byte_datagram_to_any_on-link_host_192.168.1.x;_neighbor_cache_holding_2_entries_(fixed_keys_192.168.1.2,_.77;_any_addresses,_expiries)_without_a_live_entry_for_it;_any_silent_until;_device_with_or_without_a_free_transmit_buffer;_then_the_socket's_next_dispatch_is_observed
     #[kani::proof]
     pub(crate) fn egress_keeps_data_when_neighbor_unknown() {
         #[cfg(all(feature = "proto-ipv4", feature = "socket-udp"))]
@@ -949,22 +1002,21 @@ mod v_iface_neighbor {
                 }
             }
 
-            // ---- the neighbor answers; the next egress (same instant) transmits the datagram, unmodified, to it
-            let hw = any_hw();
-            iface.inner.neighbor_cache.fill(dst, hw, now);
-            dev.tx_ok = true;
-            let r2 = iface.socket_egress(&mut dev, &mut sockets);
-            assert!(r2 == PollResult::SocketStateChanged, "prop:c16_datagram_sent_once_neighbor_known");
-            assert!(dev.tx.frames == arp_sent as usize + 1, "prop:c16_datagram_sent_once_neighbor_known");
-            assert!(sockets.get::<sudp::Socket>(h).send_queue() == 0, "prop:c16_datagram_sent_once_neighbor_known");
-            let src = IpAddress::Ipv4(OWN4);
-            if arp_sent {
-                check_ip_frame(&dev.tx.buf1, dev.tx.len1, &hw, &src, &dst, lport, rport, &data);
-            } else {
-                check_ip_frame(&dev.tx.buf0, dev.tx.len0, &hw, &src, &dst, lport, rport, &data);
-            }
+            // ---- the queued datagram is intact: what the socket hands to the interface next is the original datagram
+            // (its way onto the wire once the neighbor is known is lookup_hw_addr_step's hit case)
+            let mut seen = false;
+            let sock = sockets.get_mut::<sudp::Socket>(h);
+            let r2: Result<(), ()> = sock.dispatch(&mut iface.inner, |_cx, _meta, (ip, udp, payload)| {
+                seen = true;
+                assert!(ip.src_addr() == IpAddress::Ipv4(OWN4) && ip.dst_addr() == dst && ip.next_header() == IpProtocol::Udp && ip.payload_len() == 12, "prop:c16_queued_datagram_unmodified");
+                assert!(udp.src_port == lport && udp.dst_port == rport, "prop:c16_queued_datagram_unmodified");
+                assert!(payload.len() == 4 && payload[0] == data[0] && payload[1] == data[1] && payload[2] == data[2] && payload[3] == data[3], "prop:c16_queued_datagram_unmodified");
+                Ok(())
+            });
+            assert!(seen && r2.is_ok(), "prop:c16_datagram_stays_queued_while_neighbor_unknown");
+            assert!(sock.send_queue() == 0, "prop:c16_datagram_leaves_queue_only_when_emitted");
             kani::cover!(arp_sent && m_key_index(&m, &dst).is_none(), "ARP request sent for a neighbor never seen");
-            kani::cover!(!arp_sent && dev.tx.frames == 1 && now < m.silent, "rate limited: no request, datagram kept");
+            kani::cover!(!arp_sent && dev.tx_ok && now < m.silent, "rate limited: no request, datagram kept");
             kani::cover!(m_key_index(&m, &dst).is_some() && arp_sent, "expired entry not used, rediscovered");
             kani::cover!(m.silent > now && m.silent.total_micros() - now.total_micros() == SEC, "request had just been sent");
         }
